@@ -10,8 +10,10 @@ CONSTANTS XKinds = {"lit"}
           SwapDepClasses = FALSE
           ForgetOutputs = FALSE
           DurDepsOffByOne = TRUE
+          TruthyOptions = FALSE
 INIT Init
 NEXT Next
 INVARIANT RoundTrip
 INVARIANT NoMXPickled
+INVARIANT SwitchedIsFresh
 CHECK_DEADLOCK FALSE
